@@ -39,7 +39,11 @@ EXTREME_MULT = [1e-300, 1e300, 5e-324, 10 ** 400, 0.1, 1e-10, 3, 0.5, 2 ** 70]
 ODD_STRINGS = ["\x00", "a\x00b", "\ud800", "\udc00x", "\U0001f600", "é", "‮abc", "‍", "﻿",
                "9" * 30, "9" * 400, "1" * 2000, "a" * 2000, "2020-01-01T00:00:00+99:99", "0" * 50 + "-01-01",
                "99999999999999999999999999-01-01T00:00:00Z", "12345678" * 4, "{" + "1" * 36 + "}",
-               "urn:uuid:" + "f" * 32, "-" * 36, "1e400", "٣٣٣٣-٠١-٠١", "\n", " " * 100, "Infinity", "nan"]
+               "urn:uuid:" + "f" * 32, "-" * 36, "1e400", "٣٣٣٣-٠١-٠١", "\n", " " * 100, "Infinity", "nan",
+               "2020-13-01T00:00:00Z", "2020-00-10T00:00:00Z", "2020-02-30T25:61:61Z", "2020-12-32T23:59:60+24:00",
+               "0000-00-00T00:00:00Z", "9999-99-99T99:99:99Z", "2020-01-01T00:00:00+99:99", "2020-1-1T0:0:0Z",
+               "00000000-0000-0000-0000-000000000000", "{12345678-1234-5678-1234-567812345678}",
+               "urn:uuid:12345678-1234-5678-1234-567812345678", "1234567812345678123456781234567g"]
 DUNDER = ["__dict__", "__weakref__", "__class__", "__module__", "__slots__", "__init__", "__new__",
           "__doc__", "__getitem__", "__eq__", "__hash__", "_dict", "properties", "default", "self",
           "\x00", "\ud800", "a\U0001f600", "‮", "", " ", "é"]
